@@ -239,6 +239,16 @@ def rule_change_findings(ctx, rep):
                 rep.check("R-CHANGE-FINDINGS", fn.qname, where, ok, f"lineNumber={unparse(ln) if ln is not None else '?'}", why)
     if n < 5:
         raise AnalysisError("fewer than 5 Change(...) constructions found")
+
+
+def rule_findings_lookup(ctx, rep):
+    """Shared by C06 / C19: the shape of FileContext.get_findings_for_location, through which every change entry gets its findings."""
+    rep.rule(
+        "R-FINDINGS-LOOKUP",
+        "FileContext.get_findings_for_location answers for exactly one line and once per result: the location's start / end lines are "
+        "compared with the line parameter only, and the locations of a result are tested existentially, not iterated in a generator of their own",
+        min_instances=2,
+    )
     # the lookup itself: a finding is attached when its location covers *the* line asked for -- one line, the first parameter.  A lookup that
     # compares the location's start with one line and its end with another answers for a range of lines, and the findings of other sites on
     # those lines (a nested call on a continuation line) are attached to this change
@@ -255,7 +265,20 @@ def rule_change_findings(ctx, rep):
     if not cmps:
         raise AnalysisError("get_findings_for_location: the comparison of the line with location.start.line / location.end.line was not found")
     others = {unparse(rr.expand(x) if isinstance(x, ast.Name) else x) for c in cmps for x in [c.left] + c.comparators if not is_bound(x)}
-    rep.check("R-CHANGE-FINDINGS", lk.qname, lk.loc(cmps[0]), others == {pp[1]}, "lookup-single-line",
+    # ... and once per result: the locations of one result are tested existentially (`any(...)`, or a loop that stops at the first hit).  A
+    # comprehension with a second generator over the locations -- whose variable the element does not mention -- yields the finding once per
+    # covering location, and the change entry carries it twice
+    multiplied = []
+    for comp in [c for c in ast.walk(lk.node) if isinstance(c, (ast.ListComp, ast.GeneratorExp)) and len(c.generators) > 1]:
+        used = names_in(comp.elt)
+        for g in comp.generators[1:]:
+            tg = {x.id for x in ast.walk(g.target) if isinstance(x, ast.Name)}
+            if not (tg & used) and any(is_bound(x) for cond in g.ifs for x in ast.walk(cond)):
+                multiplied.append(comp)
+    rep.check("R-FINDINGS-LOOKUP", lk.qname, lk.loc(multiplied[0]) if multiplied else lk.loc(), not multiplied, "lookup-once-per-result",
+              "the lookup iterates the locations of a result in a generator of its own: a result with two locations covering the line contributes its "
+              "finding twice to the change entry")
+    rep.check("R-FINDINGS-LOOKUP", lk.qname, lk.loc(cmps[0]), others == {pp[1]}, "lookup-single-line",
               f"the location's start / end lines are compared with {sorted(others)}, not with the one line `{pp[1]}` the change is reported on: the lookup "
               "covers other lines, whose findings belong to other sites")
 
@@ -586,6 +609,7 @@ def check(ctx, rep):
     rule_gate_result(ctx, rep)
     rule_rule_keyed(ctx, rep)
     rule_change_findings(ctx, rep)
+    rule_findings_lookup(ctx, rep)
     rule_requested_rules(ctx, rep)
     rule_requested_rules_frozen(ctx, rep)
     rule_open_status(ctx, rep)
